@@ -118,11 +118,11 @@ func genC19(t *rapid.T) C19Case {
 		splice(g.Prog.Files[n])
 	}
 	// hostile directive lines (odd replacement lists, missing arguments, glued text)
-	if rapid.IntRange(0, 11).Draw(t, "hostiledirective") == 0 {
+	if rapid.IntRange(0, 7).Draw(t, "hostiledirective") == 0 {
 		l := ragen.Line{K: ragen.KRaw, T: rapid.SampledFrom([]string{
 			"##!> include f0 -- a", "##!> include f0 -- a b c", "##!> include-except f0 f1 -- a b c", "##!> include f0 --", "##!> include nosuch -- x",
 			"##!> include-except f0", "##!> include-except", "##!> include", "##!> define", "##!> define x", "##!> cmdline", "##!> cmdline  ", "##!>", "##!> assemble x y",
-			"##!> cmdline unix\n##!> include f0 -- sh \"\"\n##!<", "##!> cmdline windows\n##!> include-except f0 f1 -- a \"\" b \"\"\n##!<",
+			"##!> cmdline unix\n##!> include hd-shells -- sh \"\"\n##!<", "##!> cmdline windows\n##!> include-except hd-shells hd-none -- a \"\" sh \"\"\n##!<", "##!> include hd-shells -- bash \"\" sh \"\" a \"\"",
 			"##!> define loop {{loop}}\nx{{loop}}y", "##!> define a {{b}}\n##!> define b {{a}}\n{{a}}", "##!> define g a{{g}}\n##!^ {{g}}", "##!> define u {{undefined}}\n{{u}}{{u}}",
 			"##!=<", "##!=> ", "##!+", "##!+ ", "##!^", "##!$", "##!+ isx", "##!<", "##!< ##!<",
 		}).Draw(t, "hd")}
@@ -165,6 +165,11 @@ func genC19(t *rapid.T) C19Case {
 		c.Kind = "program-with-doubling-definitions"
 	}
 	c.Stdin = g.Prog.MainText()
+	if strings.Contains(c.Stdin, "hd-shells") {
+		// word lists whose entries are eaten whole by the replacements above
+		c.Files["include/hd-shells.ra"] = "sh\nbash\na\nab\n"
+		c.Files["exclude/hd-none.ra"] = "zsh\n"
+	}
 	c.Cmd = rapid.SampledFrom([]string{"", "", "", "", "", "generate-id", "update", "compare", "format", "format-check"}).Draw(t, "cmd")
 	for n, l := range g.Prog.Files {
 		c.Files[n] = ragen.Print(l, "\n", true)
